@@ -102,8 +102,10 @@ def run(ctx, pid, kinds, n_quick, n_thorough, polite=60, extra_assumptions=()):
     def replay_obj(i):
         r = results[i]
         sc = dict(r["scenario"], choices=r.get("choices", []))
+        # the complete recorded history goes into the replay file: `build/bin/sup -project <replay> -out <dir>` re-projects
+        # it to cases_SUP.v, so the exact history can be re-evaluated even when a re-run schedules differently
         return {"scenario": sc, "scenarios": [sc], "windows": win_names(wcodes[i]) if i < len(wcodes) else [],
-                "events_tail": (r.get("events") or [])[-60:], "n_events": len(r.get("events") or [])}
+                "histories": [r], "n_events": len(r.get("events") or [])}
 
     if unexplained:
         i = unexplained[0]
